@@ -881,6 +881,25 @@ func (g *gen) evalCall(env *specEnv, e *SExpr) (Val, error) {
 			}
 		}
 		return boolVal(app("tnode", args[0].T)), nil
+	case "astDepth", "typeDepth":
+		// well-founded measures: the height of a syntax-tree node below the root's / the nesting depth of a type literal
+		// (theories ast-valid and gotypes state which selectors lead to strictly smaller values)
+		fnm := strings.ToLower(e.Name)
+		if !g.declared[fnm] {
+			g.declareFun(fnm, []string{"Int"}, "Int")
+			n := g.freshName("dp")
+			g.assumeGlobal(fmt.Sprintf("(forall ((%s Int)) (! (>= (%s %s) 0) :pattern ((%s %s))))", n, fnm, n, fnm, n))
+		}
+		if args[0].Sort == "Iface" {
+			return Val{T: app(fnm, app("i_val", args[0].T)), Sort: "Int"}, nil
+		}
+		return Val{T: app(fnm, args[0].T), Sort: "Int"}, nil
+	case "rxDepth":
+		if args[0].Typ == nil || !isRxExpr(args[0].Typ) {
+			return Val{}, fmt.Errorf("rxDepth expects a syntax.Expr value, got sort %s", args[0].Sort)
+		}
+		g.declRx(args[0].Typ)
+		return Val{T: app("rxdepth", args[0].T), Sort: "Int"}, nil
 	case "tnode":
 		// tnode(x): x is a node of a parsed and type-checked syntax tree (theory ast-valid)
 		g.declTnode()
